@@ -70,7 +70,7 @@ CHECKS = {
         "level": "exploration",
         "technique": "runtime monitoring: metamorphic oracle cache-on == cache-off against hash-echo servers + key determinism over repeated evaluations (recorded cache keys, remote call counts)",
         "text": "For 8 mechanisms: (1) the same request evaluated 60x with freshly created mechanisms must use one cache key and one remote call; (2) pairs of requests differing in exactly one component (subject, payload, value, credential, forwarded value, rule-level policy) and (3) boundary-shifted pairs are run in A,B,A / B,A,B order once with the recording in-memory cache and once with a no-op cache; per step the error kind, subject, outputs and upstream headers must be equal.",
-        "note": "Servers answer as pure functions of the request. JWTs are compared by claims minus iat/nbf/exp/jti. Open known findings list design-level defects (assertions skipped on cache hit, forwarded values/outputs not in key, httpcache key ignoring body/Vary) with narrow signatures.",
+        "note": "Servers answer as pure functions of the request. JWTs are compared by claims minus iat/nbf/exp/jti. Four open known findings with narrow signatures (`.Outputs` used in endpoint templates not in the key of remote authorizer / contextualizer; httpcache key ignoring the request body and Vary); everything else found was repaired (known_findings.json).",
     },
     "C12": {
         "level": "exploration",
@@ -88,19 +88,19 @@ CHECKS = {
         "level": "exploration",
         "technique": "runtime monitoring: metamorphic oracle over related loads of the real configuration loader (all-file == all-env == every split; env wins per leaf; permutation invariance) + schema/loader equivalence table",
         "text": "Configurations generated from a grammar of the documented tree (nested lists in lists, every mechanism type/option) are loaded by config.NewConfiguration from a file, from per-leaf environment variables in several orders, and from random splits with conflicting assignments; canonicalised results must be equal, the environment must win exactly on conflicting leaves, defaults elsewhere; 234 table entries (each mechanism type, auth type, option) are given once by file and once by environment: usable(file) <=> usable(env).",
-        "note": "Scalars are generated with schema types; free-form map keys lower case, no `$` in values. Undocumented spellings are outside the quantifier. Three open known findings (schema applied to the file before merging; http_message_signatures missing in schema; metadata_endpoint string form).",
+        "note": "Scalars are generated with schema types; free-form map keys lower case, no `$` in values. Undocumented spellings are outside the quantifier. Five open known findings (environment values typed by a YAML parse; mechanism decoders not weakly typed; schema applied to the file before merging; http_message_signatures missing in schema; metadata_endpoint string form).",
     },
     "C08": {
         "level": "exploration",
         "technique": "runtime monitoring: metamorphic oracle (re-encodings of unreserved octets must not change rule/captures/decision) + encoded-slash policy assertions on the three assembled services and the upstream echo server",
         "text": "A rule set mixing literal, single-wildcard, free-wildcard and path_params expressions for the same paths under each encoded-slash setting plus a default rule runs in the decision, proxy and Envoy gRPC services; every base path is sent canonically and in none/all/random re-encodings of its unreserved octets (either hex case) and with %2F / %2f inserted at several positions of the last segment; matched rule, echoed captures, accept/deny and the request line received by the upstream are compared with the canonical spelling and with the per-setting rules of the statement. Held on the spellings executed.",
-        "note": "The Envoy CheckRequest carries the raw path in `path` and the query in `query` (as the repository's tests do). Which rule an encoded-slash path should match is taken from the canonical path's rule family.",
+        "note": "The kit's Envoy client sends every second request target the way Envoy does (path and query together in `path`, `query` empty) and every other one split (as the repository's tests do). Which rule an encoded-slash path should match is taken from the canonical path's rule family.",
     },
     "C13": {
         "level": "exploration",
         "technique": "runtime monitoring: differential oracle across the three assembled entry points for the same logical request (decision, echoed request view, upstream-side headers and cookies)",
         "text": "Seeded logical requests (methods, hosts, percent-encoded paths with captures, repeated/encoded query parameters, multi-valued and non-ASCII headers, quoted cookies, JSON/form/YAML/text/invalid bodies in both Envoy body encodings) are sent to the HTTP decision, Envoy gRPC and proxy services loaded with the same rules, whose CEL authorizers, `if` conditions and header/cookie finalizer templates read method, URL parts, captures, headers in three name casings, cookies and the decoded body; decisions, every echoed view value and every header/cookie produced for the upstream side must be pairwise equal. Held on the requests executed.",
-        "note": "Mapping of a logical request to an Envoy CheckRequest follows the repository's tests (lower-case header keys, path/query separate). One open known finding (multi-valued pipeline header: first value on HTTP, joined on gRPC; both pinned by existing unit tests).",
+        "note": "Mapping of a logical request to an Envoy CheckRequest: lower-case header keys; the request target alternately in Envoy's own form (path and query in `path`) and split into `path`/`query` as the repository's tests do. One open known finding (multi-valued pipeline header: first value on HTTP, joined on gRPC; both pinned by existing unit tests).",
     },
     "C19": {
         "level": "fault_enumeration",
